@@ -1,7 +1,7 @@
 """C03 — HyperLogLog: count() returns normally for any register contents; the tables the estimator reads agree in shape."""
 import math
 from ..terms import TermBuilder, fmt, mk, const, subterms
-from ..guards import atomic_facts, int_bounds, panic_sites
+from ..guards import atomic_facts, int_bounds, panic_sites, entails_ge0, discharged_by_facts
 
 EXPLANATION = (
     "Only the last sentence of C03 is decided (count() returns normally for any register contents) plus the table agreement the "
@@ -150,10 +150,17 @@ def run(ctx):
         (HLL + "::neighbor_search_startpoints", "unwrap"): (1, "partial_cmp on finite table entries and finite e (POW2MINX > 0 => z finite)"),
     }
     found = {}
+    n_local = 0
     for k in sorted(reach):
         f = prog.fn(k)
         ctx.analysed_fns.add(k)
+        tbk = TermBuilder(f, prog)
         for (bi, kind, detail, span) in panic_sites(f):
+            # sites refuted by a dominating test of the same function need no entry in the table below
+            why = discharged_by_facts(f, prog, bi, tbk)
+            if why is not None:
+                n_local += 1
+                continue
             # closures are counted with the function they are written in (their numbering changes when one is added or removed)
             found.setdefault((k.split("::{closure")[0], kind), []).append(span)
     for key, spans in sorted(found.items()):
@@ -163,6 +170,7 @@ def run(ctx):
             ctx.fail("R03-panic-census", "%s:%s" % key, spans[-1], "count() can reach %d may-panic site(s) of kind %s in %s; the allow-list discharges %s — an undischarged panic on register contents"
                      % (len(spans), key[1], key[0].split("::", 2)[-1], allow.get(key, (0, ""))[0]))
     ctx.floor("R03-panic-census", len(found), 8, "kinds of may-panic sites reachable from count")
+    neighbour_bounds(ctx)
     # the table index terms are b - OFFSET
     for fk, tname in ((HLL + "::threshold", "THRESHOLD_DATA_VEC"), (HLL + "::estimate_bias", "RAW_ESTIMATE_DATA_VEC"), (HLL + "::estimate_bias", "BIAS_DATA_VEC")):
         f = prog.fn(fk)
@@ -188,3 +196,72 @@ def run(ctx):
                                         ctx.check(it == want, "R03-table-index", "%s:%s" % (fk, tname), st2.span, "%s is indexed with self.b - %d" % (tname, lo), "%s is indexed with %s, expected self.b - %d" % (tname, fmt(it), lo))
         if not hit:
             ctx.fail("anchor-missing", "R03-table-index:%s:%s" % (fk, tname), f, "no indexed read of %s found in %s" % (tname, fk))
+
+
+def neighbour_bounds(ctx):
+    """R03-neighbour-bounds: the two cursors of the nearest-neighbour walk in estimate_bias (Option<usize>, seeded by
+    neighbor_search_startpoints, each later used to index the row) only ever advance to an index that the dominating test proves
+    to be inside the row: `Some(idx + c)` needs a fact giving idx + c < len(row), `Some(idx - c)` a fact giving idx >= c;
+    `Some(idx + 1).filter(|n| n < len)` and `idx.checked_sub(1)` carry their own test. The cursor that is not moved keeps its value."""
+    from ..terms import apply_closure, linear
+    prog = ctx.prog
+    f = ctx.anchor(HLL + "::estimate_bias")
+    if f is None:
+        return
+    tb = TermBuilder(f, prog)
+    n = 0
+    for h in f.loop_heads():
+        for l in range(len(f.locals)):
+            if not (tb.defined_in_loop(l, h) and f.local_ty(l).startswith("std::option::Option<usize")):
+                continue
+            init = tb.loop_init(l, h)
+            seeds = [s_ for s_ in subterms(init) if s_[0] == "call" and s_[1].endswith("neighbor_search_startpoints")]
+            if not seeds:
+                continue
+            row = seeds[0][2][0]
+            ln = ("call", "core::slice::<impl [T]>::len", (row,))
+            lv = ("loopvar", l, h)
+            upd = tb.loop_update(l, h)
+            for alt in (upd[1] if upd[0] == "phi" else (upd,)):
+                n += 1
+                name = f.local_name(l) or "_%d" % l
+                key = "%s:%s" % (f.key, name)
+                if alt == lv or (alt[0] == "adt" and alt[2] == "None"):
+                    ctx.ok("R03-neighbour-bounds", key, "cursor kept / exhausted")
+                    continue
+                inner, own_test = alt, None
+                if alt[0] == "call" and alt[1].endswith("Option::filter") and len(alt[2]) == 2 and alt[2][1][0] == "closure":
+                    inner = alt[2][0]
+                    own_test = apply_closure(alt[2][1], (("elem", ("dummy",)),))
+                if inner[0] == "call" and inner[1] == "checked" and inner[2][0][0] == "op" and inner[2][0][1] == "Sub":
+                    ctx.ok("R03-neighbour-bounds", key, "checked_sub: None below 0")
+                    continue
+                if not (inner[0] == "adt" and inner[2] == "Some"):
+                    ctx.shape("R03-neighbour-bounds", key, f, "cursor update %s is not understood" % fmt(alt)[:160])
+                    continue
+                x = inner[3][0][1]
+                atoms, c = linear(x)
+                if own_test is not None:
+                    d = ("elem", ("dummy",))
+                    lens = [s_ for s_ in subterms(own_test) if s_[0] == "call" and s_[1].endswith("::len")]
+                    okf = bool(lens) and lens[0][2][0] == row and entails_ge0([(own_test, True)], mk("Sub", mk("Sub", lens[0], d), const(1)))
+                    ctx.check(okf and c > 0, "R03-neighbour-bounds", key, f, "Some(idx + %d).filter(n < len(row))" % c, "cursor %s: the filter %s does not keep it below len(row)" % (name, fmt(own_test)[:120]))
+                    continue
+                # the aggregate's block and the facts that dominate it
+                sites = [bi for bi, blk in enumerate(f.blocks) if bi in f.natural_loop(h) for si, st in enumerate(blk.stmts)
+                         if st.k == "assign" and st.rv.k == "aggregate" and st.rv.j.get("variant") == "Some" and tb.rvalue(st.rv, bi, si) == inner]
+                if not sites:
+                    ctx.shape("R03-neighbour-bounds", key, f, "cannot locate the construction of %s" % fmt(inner)[:120])
+                    continue
+                okf = True
+                for bi in sites:
+                    facts = atomic_facts(f, prog, bi, tb)
+                    lens = [s_ for c_, _ in facts for s_ in subterms(c_) if s_[0] == "call" and s_[1].endswith("::len") and s_[2][0] == row]
+                    if c > 0:
+                        okf = okf and bool(lens) and entails_ge0(facts, mk("Sub", mk("Sub", lens[0], x), const(1)))
+                    else:
+                        okf = okf and entails_ge0(facts, x)
+                ctx.check(okf, "R03-neighbour-bounds", key, f, "Some(idx %+d) under a test that keeps it inside the row" % c,
+                          "cursor %s is advanced to %s without a dominating test that keeps it %s: the next iteration indexes the row out of bounds and count() panics"
+                          % (name, fmt(x)[:100], "below len(row)" if c > 0 else "at or above 0"))
+    ctx.floor("R03-neighbour-bounds", n, 4, "cursor updates in the neighbour walk")
